@@ -520,6 +520,79 @@ func init() {
 		return normStr(out)
 	})
 
+	// ---- encoding/base64: (*Encoding).EncodeToString over a byte sequence that may hold terms. The alphabet and
+	// the padding character are read from the receiver; an output character is the alphabet entry selected by a
+	// 6-bit group, as a nested ite over the 64 entries (no forking on the index).
+	reg("(*encoding/base64.Encoding).EncodeToString", func(fr *frame, a []value) value {
+		enc, ok := (*a[0].(*value)).(structure)
+		if !ok || len(enc) < 3 {
+			panic(unsupported("base64.Encoding of an unexpected shape"))
+		}
+		alpha, ok := enc[0].(array)
+		if !ok || len(alpha) != 64 {
+			panic(unsupported("base64.Encoding of an unexpected shape"))
+		}
+		pad, _ := enc[2].(int32)
+		src := seqOf(a[1])
+		term := func(v value) string {
+			switch b := v.(type) {
+			case uint8:
+				return bvConst(uint64(b), 8)
+			case *sym:
+				return b.e
+			}
+			panic(unsupported("base64 of a non-byte element"))
+		}
+		look := func(idx string, concrete bool, cidx uint8) value {
+			if concrete {
+				return alpha[cidx].(uint8)
+			}
+			e := bvConst(uint64(alpha[63].(uint8)), 8)
+			for k := 62; k >= 0; k-- {
+				e = "(ite (= " + idx + " " + bvConst(uint64(k), 8) + ") " + bvConst(uint64(alpha[k].(uint8)), 8) + " " + e + ")"
+			}
+			return &sym{e: e, k: symBV, w: 8, gk: types.Uint8}
+		}
+		out := sstr{}
+		for i := 0; i < len(src); i += 3 {
+			n := len(src) - i
+			if n > 3 {
+				n = 3
+			}
+			var b [3]value
+			conc := true
+			for k := 0; k < 3; k++ {
+				b[k] = uint8(0)
+				if k < n {
+					b[k] = src[i+k]
+				}
+				if _, isC := b[k].(uint8); !isC {
+					conc = false
+				}
+			}
+			var ci [4]uint8
+			if conc {
+				b0, b1, b2 := b[0].(uint8), b[1].(uint8), b[2].(uint8)
+				ci = [4]uint8{b0 >> 2, (b0&3)<<4 | b1>>4, (b1&15)<<2 | b2>>6, b2 & 63}
+			}
+			t0, t1, t2 := term(b[0]), term(b[1]), term(b[2])
+			idx := [4]string{
+				"(bvlshr " + t0 + " #x02)",
+				"(bvor (bvshl (bvand " + t0 + " #x03) #x04) (bvlshr " + t1 + " #x04))",
+				"(bvor (bvshl (bvand " + t1 + " #x0f) #x02) (bvlshr " + t2 + " #x06))",
+				"(bvand " + t2 + " #x3f)",
+			}
+			for k := 0; k < 4; k++ {
+				if k <= n {
+					out = append(out, look(idx[k], conc, ci[k]))
+				} else if pad != -1 {
+					out = append(out, uint8(pad))
+				}
+			}
+		}
+		return normStr(out)
+	})
+
 	// ---- strconv
 	reg("strconv.Itoa", func(fr *frame, a []value) value {
 		switch n := a[0].(type) {
